@@ -5,6 +5,7 @@
 pub mod hooks;
 pub mod io;
 pub mod kernel;
+pub mod models;
 pub mod nodes;
 pub mod props;
 pub mod refcodec;
